@@ -10,6 +10,21 @@ CLAIMS = {
      design_ref="§5 C01", engine="combinators",
      note="Trusted: Coq kernel, hand-written models (Stats.v, Normalize.v, Combinators.v, Pipeline.v) validated by the differential check, harness, orchestrator. Streams obey the Runner contract, are retry-consistent and carry one ParsingFinished. K01a (hook failing in a retried attempt) excluded by hypothesis and reported as KNOWN-FINDING. run_and_exit's panic is by inspection of src/cucumber.rs:1208.",
      technique="Coq theorem (Summarize verdict = spec) + differential correspondence check of pipeline model vs code + Coq-defined monitor"),
+ "C02": dict(
+     text="Full for one attempt, interleaving deferred to the scheduler model: the Gallina transcription of Executor::run_scenario (before hook, the three try_folds, lazy World creation, after hook run before the deferred Failed event, Finished) is proved, for every shape, outcome assignment and hook presence, to emit exactly the canonical sequence recognised by an independent parser (wf_events): Started; before pair; declared steps in order, Started + one result, stopping after the first non-Passed; Failed before the after pair; Finished last; outcome mapping lemmas (no match = Skipped, ambiguity / panic / World failure = Failed with the payload). Tied to the REAL runner on scripted scenarios (events and callback log of every attempt).",
+     design_ref="§5 C02", engine="attempt",
+     note="Trusted: Coq kernel, hand-written model of src/runner/basic.rs:1165-1800 (validated by the differential check), harness (scripted World / hooks / steps), orchestrator. That every event of an attempt carries the same retries value is by construction of the model (one value per attempt) and checked on the real stream by grouping.",
+     technique="Coq theorem (model events satisfy an independent recogniser) + differential correspondence check"),
+ "C09": dict(
+     text="Partial: on the model the after hook is proved to run exactly once iff set, as the last callback, with the final World and the reason the step phase ended; the full lifecycle contract (before hook first on a fresh World, every step sees all earlier mutations, one World per attempt created only if needed, no instance shared between attempts, true reason) is an executable Coq monitor (AttemptSpec.c09_ok) evaluated on the REAL callback log of every attempt (World instance ids and mutation logs recorded), and the model is compared callback for callback; that the model satisfies the whole monitor is not yet a theorem.",
+     design_ref="§5 C09", engine="attempt",
+     note="Trusted: as C02. The World is observed through an instance id and a mutation log kept by the harness's World type.",
+     technique="Coq theorems on the callback log of the model + Coq-defined monitor on real callback logs + differential correspondence check"),
+ "C10": dict(
+     text="Partial: the logic is proved on the model (a panicking step, hook or World creation becomes the Failed event carrying exactly that payload; the attempt still gets its after-hook pair and Finished; the failed flag is exact); on the REAL runner payloads of type String, &str and u32 are recovered by downcast from the Failed events, a counting process panic hook must stay at 0 during the run and must be back in place after it, and the stream must close with Finished. What the process does with stderr and the global hook is observed, not proved.",
+     design_ref="§5 C10", engine="attempt",
+     note="Trusted: as C02, plus the harness's counting panic hook (installed before the run, probed by a marker panic on a scratch thread after it).",
+     technique="Coq theorems on the model + differential correspondence check + runtime probe of the process panic hook"),
  "C11": dict(
      text="Partial (being extended): the nested-FIFO model of writer::Normalize is tied to the REAL Normalize after every handle_event call on contract-abiding linearisations (sequential, runner-like and wild), and an independent Coq-defined monitor checks the property text on the real outputs (lossless multiset, sequential recogniser, per-attempt order, pass-through at once, head-live, identity on sequential input); proved so far: pass-through events are forwarded first in the same call, everything is passed through after Finished; the lossless/sequential theorems are in progress.",
      design_ref="§5 C11", engine="combinators",
@@ -42,6 +57,7 @@ CLAIMS = {
      technique="Coq theorems about the model + differential correspondence check"),
 }
 ENGINES = {
+ "attempt": ("/verif/harness/src/engines/attempt.rs", "differential correspondence: one scripted scenario (all attempts) through the REAL runner::Basic; event stream + callback log vs Gallina model; Coq-defined monitors"),
  "combinators": ("/verif/harness/src/engines/combinators.rs", "differential correspondence: dynamically assembled REAL writer pipelines (FailOnSkipped/Repeat/Tee/Or/discard/Normalize/Summarize/Libtest around recording leaves) vs Gallina models, per handle_event call"),
  "filter": ("/verif/harness/src/engines/filter.rs", "differential correspondence: real Cucumber::filter_run (vector parser, recording Runner) vs Gallina model"),
  "outline": ("/verif/harness/src/engines/outline.rs", "differential correspondence: real Feature::expand_examples (hand-built, scanner probes, parsed texts) vs Gallina model"),
